@@ -104,13 +104,22 @@ def gen(rng, tier, run):
         else:
             ops.append(['read', rng.sample(range(NTASKS + 1), rng.randrange(0, NTASKS + 2))])
     ops.append(['read', list(range(NTASKS))])
-    return {'ops': ops}
+    case = {'ops': ops}
+    r = rng.random()
+    if r < 0.2:
+        case['root'] = 'brackets'
+    elif r < 0.35:
+        case['hidden'] = True
+    return case
 
 
 def shrink(case):
     ops = case['ops']
+    for key in ('root', 'hidden'):
+        if key in case:
+            yield {k: v for k, v in case.items() if k != key}
     for i in range(len(ops) - 1):
-        yield {'ops': ops[:i] + ops[i + 1:]}
+        yield dict(case, ops=ops[:i] + ops[i + 1:])
     for i, op in enumerate(ops):
         if op[0] in ('write', 'crash') and len(op[1]) > 1:
             for j in range(len(op[1])):
@@ -118,7 +127,15 @@ def shrink(case):
                     continue
                 new = list(op)
                 new[1] = op[1][:j] + op[1][j + 1:]
-                yield {'ops': ops[:i] + [new] + ops[i + 1:]}
+                yield dict(case, ops=ops[:i] + [new] + ops[i + 1:])
+
+
+_PFX = {}
+
+
+def tn(t):
+    """directory / task name of task number t (hidden names for some cases)"""
+    return _PFX.get('p', '') + f't{t}'
 
 
 def build_env(entries, root):
@@ -131,8 +148,8 @@ def build_env(entries, root):
             sub['start_clock'] = 1.6e9 + 10 * t
             sub['end_clock'] = 1.6e9 + 10 * t + 1 + p
         if outdir is not None:
-            sub['output_dir'] = os.path.join(root, f't{outdir}')
-        dct[f't{t}'] = sub
+            sub['output_dir'] = os.path.join(root, tn(outdir))
+        dct[tn(t)] = sub
     return Env(dct)
 
 
@@ -140,8 +157,8 @@ def dump_env(env, root):
     out = []
     for name, sub in env.items():
         outdir = sub.get('output_dir')
-        out.append([int(name[1:]), int(sub['status']) if hasattr(sub['status'], 'value') else sub['status'].value,
-                    None if outdir is None else int(os.path.basename(outdir)[1:]), sub.get('p')])
+        out.append([int(name.lstrip('.')[1:]), int(sub['status']) if hasattr(sub['status'], 'value') else sub['status'].value,
+                    None if outdir is None else int(os.path.basename(outdir).lstrip('.')[1:]), sub.get('p')])
     return sorted(out)
 
 
@@ -152,12 +169,14 @@ def status_code(sub):
 def run_impl(case, run):
     from valjean.cambronne.common import read_env, write_env
     from valjean.cosette.env import Env
-    root = tempfile.mkdtemp(prefix='c14_')
+    # an output root whose name holds glob characters, task names that start with a dot: legal names
+    _PFX['p'] = '.' if case.get('hidden') else ''
+    root = tempfile.mkdtemp(prefix='c14_[1]x_' if case.get('root') == 'brackets' else 'c14_')
     outs = []
     sweep = {'files': 0, 'cuts': 0, 'bad': []}
     try:
         for t in range(NTASKS + 1):
-            os.makedirs(os.path.join(root, f't{t}'))
+            os.makedirs(os.path.join(root, tn(t)))
         for op in case['ops']:
             name = op[0]
             if name == 'write':
@@ -168,9 +187,9 @@ def run_impl(case, run):
                 write_env(build_env(entries[:n], root), filename=FILENAME, fmt='pickle')
                 t, _, outdir, _ = entries[n]
                 if outdir is not None:
-                    full = pickle.dumps(Env({f't{t}': build_env([entries[n]], root)[f't{t}']}))
+                    full = pickle.dumps(Env({tn(t): build_env([entries[n]], root)[tn(t)]}))
                     k = 0 if cut == 'empty' else (len(full) - 1 if cut == 'most' else 1 + int(op[4] * (len(full) - 2)))
-                    path = os.path.join(root, f't{outdir}', FILENAME)
+                    path = os.path.join(root, tn(outdir), FILENAME)
                     try:
                         with open(path, 'wb') as fobj:
                             fobj.write(full[:k])
@@ -178,12 +197,12 @@ def run_impl(case, run):
                         pass    # blocked directory: the real to_file logs the error and goes on
                 outs.append('ok')
             elif name == 'delete':
-                path = os.path.join(root, f't{op[1]}', FILENAME)
+                path = os.path.join(root, tn(op[1]), FILENAME)
                 if os.path.isfile(path) and not os.path.islink(path):
                     os.remove(path)
                 outs.append('ok')
             elif name in ('block', 'unblock'):
-                tdir = os.path.join(root, f't{op[1]}')
+                tdir = os.path.join(root, tn(op[1]))
                 if os.path.isdir(tdir) and not os.path.islink(tdir):
                     shutil.rmtree(tdir)
                 elif os.path.lexists(tdir):
@@ -200,18 +219,18 @@ def run_impl(case, run):
                         os.symlink(FILENAME, os.path.join(tdir, FILENAME))
                 outs.append('ok')
             elif name == 'garbage':
-                if not os.path.isdir(os.path.join(root, f't{op[1]}')) or os.path.lexists(os.path.join(root, f't{op[1]}', FILENAME)) \
-                        and not os.path.isfile(os.path.join(root, f't{op[1]}', FILENAME)):
+                if not os.path.isdir(os.path.join(root, tn(op[1]))) or os.path.lexists(os.path.join(root, tn(op[1]), FILENAME)) \
+                        and not os.path.isfile(os.path.join(root, tn(op[1]), FILENAME)):
                     outs.append('ok')
                     continue
-                with open(os.path.join(root, f't{op[1]}', FILENAME), 'wb') as fobj:
+                with open(os.path.join(root, tn(op[1]), FILENAME), 'wb') as fobj:
                     fobj.write(garbage_bytes(op[2]))
                 outs.append('ok')
             elif name == 'read':
                 try:
-                    env = read_env(root=root, names=[f't{t}' for t in op[1]], filename=FILENAME, fmt='pickle')
-                    outs.append({'ok': [[int(k[1:]), sub['status'].value,
-                                         None if 'output_dir' not in sub else int(os.path.basename(sub['output_dir'])[1:]),
+                    env = read_env(root=root, names=[tn(t) for t in op[1]], filename=FILENAME, fmt='pickle')
+                    outs.append({'ok': [[int(k.lstrip('.')[1:]), sub['status'].value,
+                                         None if 'output_dir' not in sub else int(os.path.basename(sub['output_dir']).lstrip('.')[1:]),
                                          sub.get('p')] for k, sub in sorted(env.items())]})
                 except Exception as exc:  # pylint: disable=broad-except
                     outs.append({'raise': next((n for n, c in (('EOFError', EOFError), ('UnpicklingError', pickle.UnpicklingError),
@@ -219,12 +238,12 @@ def run_impl(case, run):
                                                                ('ImportError', ImportError), ('IndexError', IndexError))
                                                 if isinstance(exc, c)), 'other'), 'type': type(exc).__name__})
         # every-byte truncation sweep of one file written by this history (all of them in the thorough tier)
-        files = [os.path.join(root, f't{t}', FILENAME) for t in range(NTASKS)]
+        files = [os.path.join(root, tn(t), FILENAME) for t in range(NTASKS)]
         files = [f for f in files if os.path.isfile(f) and classify(open(f, 'rb').read()) == 'env']
         if run.tier != 'thorough':
             files = files[:1]
         for path in files:
-            t = int(os.path.basename(os.path.dirname(path))[1:])
+            t = int(os.path.basename(os.path.dirname(path)).lstrip('.')[1:])
             full = open(path, 'rb').read()
             sweep['files'] += 1
             for k in range(len(full)):
@@ -233,7 +252,7 @@ def run_impl(case, run):
                     fobj.write(full[:k])
                 cls = classify(full[:k])
                 try:
-                    env = read_env(root=root, names=[f't{t}'], filename=FILENAME, fmt='pickle')
+                    env = read_env(root=root, names=[tn(t)], filename=FILENAME, fmt='pickle')
                     got = 'empty' if len(env) == 0 else f'entries:{sorted(env)}'
                 except Exception as exc:  # pylint: disable=broad-except
                     got = f'raise:{type(exc).__name__}'
